@@ -2,6 +2,7 @@ import GroupbyVerif.Model.Spec
 import GroupbyVerif.Model.GenTable
 import GroupbyVerif.Model.GroupBy
 import GroupbyVerif.Model.RowSel
+import GroupbyVerif.Model.Cumulative
 import GroupbyVerif.Generated.Constants
 
 /-!
@@ -100,6 +101,14 @@ def showKey (l : Key) : String := ".".intercalate (l.map toString)
 
 def showLabelled (r : List (Key × Partial)) : String :=
   if r.isEmpty then "-" else "|".intercalate (r.map fun (l, p) => s!"{showKey l}:{showPartial p}")
+
+def showOptVals (vs : List (Option Val)) : String :=
+  ",".intercalate (vs.map fun | none => "K" | some v => v.toStr)
+
+def parseCumOp (s : String) : Option CumOp :=
+  match s with
+  | "sum" => some .sum | "count" => some .count | "min" => some .min | "max" => some .max
+  | _ => none
 
 def showInts (vs : List Int) : String := ",".intercalate (vs.map toString)
 
